@@ -171,3 +171,9 @@ package meta
 //@   requires e != nil && e.pikevm != nil
 //@   modifies e.longest, e.pikevm.*, e.boundedBacktracker.internalState.Longest
 //@   ensures e.longest == longest
+
+//@ trusted func (*Engine).SubexpNames
+//@   requires e != nil
+//@ trusted func (*Engine).NumCaptures
+//@   requires e != nil
+//@   ensures result >= 1
